@@ -21,8 +21,13 @@ use crate::config::find_ignore_file_path;
 mod config;
 mod opt;
 mod output_diff;
+#[cfg(feature = "verif-hooks")]
+mod verif_hooks;
 
+#[cfg(not(feature = "verif-hooks"))]
 static EXIT_CODE: AtomicI32 = AtomicI32::new(0);
+#[cfg(feature = "verif-hooks")]
+static EXIT_CODE: verif_hooks::SchedAtomicI32 = verif_hooks::SchedAtomicI32::new(0);
 static UNFORMATTED_FILE_COUNT: AtomicU32 = AtomicU32::new(0);
 
 enum FormatResult {
@@ -140,6 +145,9 @@ fn format_file(
     let contents =
         fs::read_to_string(path).with_context(|| format!("failed to read {}", path.display()))?;
 
+    #[cfg(feature = "verif-hooks")]
+    verif_hooks::fault_point("format", path)?;
+
     let before_formatting = Instant::now();
     let formatted_contents = format_code(&contents, config, range, verify_output)
         .with_context(|| format!("could not format file {}", path.display()))?;
@@ -166,6 +174,8 @@ fn format_file(
         }
     } else {
         if formatted_contents != contents {
+            #[cfg(feature = "verif-hooks")]
+            verif_hooks::fault_point("write", path)?;
             fs::write(path, formatted_contents)
                 .with_context(|| format!("could not write to {}", path.display()))?;
         }
